@@ -2045,7 +2045,7 @@ class Interp:
             if f not in seen:
                 seen.add(f)
                 cands.append(f)
-        if phis:
+        if phis and not (plain and getattr(self, "cheap_plain_joins", False)):
             # template candidates relating every phi to the other integer terms
             leaves = self.int_leaves(res)
             phiset = set(phis)
